@@ -373,7 +373,13 @@ func (l *Lexer) Split() []*Token {
 		}
 		prev = char
 	}
-	if tokLen > 0 {
+	if strStart {
+		// Unterminated literal: it is not a literal, the text from its quote
+		// to the end of the query is one word (which the parser rejects there)
+		if token := buildToken(l.Query[tokStartPos:], tokStartPos); token != nil {
+			ret = append(ret, token)
+		}
+	} else if tokLen > 0 {
 		curr = l.Query[tokStart : tokStart+min(tokLen, l.Length-tokStart)]
 		if token := buildToken(curr, tokStartPos); token != nil {
 			ret = append(ret, token)
